@@ -6,35 +6,64 @@
 
 package signal
 
+// C04 (see type_msm4/signal): N = header.NumSignalCells cells of 80 bits, field-major.
 //@ func GetSignalCells
+//@ opaque Row7OK, Sig7OK
+//@ sequential
 //@ requires[C07] header != nil
 //@ requires HeaderWF(header) && len(satCells) == len(header.Satellites) && startOfSignalCells <= 1<<40 && startOfSignalCells <= 8*len(bitStream)
+//@ requires 0 <= header.NumSignalCells && header.NumSignalCells <= 64
+//@ requires[C04] HdrCells(header)
 //@ let S = startOfSignalCells
+//@ let N = header.NumSignalCells
+//@ let M = header.CellMask
+//@ let ns = len(header.Signals)
+//@ let T = len(header.Satellites) * len(header.Signals)
+//@ let P = 8*offof(bitStream) + startOfSignalCells
+//@ let Enough = startOfSignalCells + 80*header.NumSignalCells + 24 <= 8*len(bitStream)
 //@ ensures r1 == nil ==> len(r0) == len(header.Satellites) && fresh(r0)
 //@ ensures r1 == nil ==> forall(k, 0, len(r0), forall(l, 0, len(r0[k]), r0[k][l].Satellite != nil))
+//@ ensures[C04] Enough && (!header.MultipleMessage || N >= 1) ==> r1 == nil
+//@ ensures[C04] r1 == nil && Enough ==> forall(k, 0, len(r0), Row7OK(contents(r0[k]), offof(r0[k]), len(r0[k]), contents(header.Signals), offof(header.Signals), M, T, ns, k, ns, contents(bitStream), P, N, addr(satCells, k), logLevel))
 //@ loop 1
 //@ invariant 0 <= i && i <= numSignalCells && len(rangeDelta) == i && fresh(rangeDelta) && pos == S + 20*i
 //@ invariant 0 <= numSignalCells && S + 80*numSignalCells <= 8*len(bitStream)
+//@ invariant[C04] Enough ==> numSignalCells == N
+//@ invariant[C04] forall(k, 0, len(rangeDelta), rangeDelta[k] == sbits(bitStream, S + 20*k, 20))
 //@ decreases numSignalCells - i
 //@ loop 2
 //@ invariant 0 <= i && i <= numSignalCells && len(phaseRangeDelta) == i && fresh(phaseRangeDelta) && pos == S + 20*numSignalCells + 24*i
 //@ invariant 0 <= numSignalCells && S + 80*numSignalCells <= 8*len(bitStream) && len(rangeDelta) == numSignalCells
+//@ invariant[C04] (Enough ==> numSignalCells == N) && allocated(rangeDelta) && arrof(rangeDelta) != arrof(phaseRangeDelta)
+//@ invariant[C04] forall(k, 0, numSignalCells, rangeDelta[k] == sbits(bitStream, S + 20*k, 20))
+//@ invariant[C04] forall(k, 0, len(phaseRangeDelta), phaseRangeDelta[k] == sbits(bitStream, S + 20*numSignalCells + 24*k, 24))
 //@ decreases numSignalCells - i
 //@ loop 3
 //@ invariant 0 <= i && i <= numSignalCells && len(lockTimeIndicator) == i && fresh(lockTimeIndicator) && pos == S + 44*numSignalCells + 10*i
 //@ invariant 0 <= numSignalCells && S + 80*numSignalCells <= 8*len(bitStream) && len(rangeDelta) == numSignalCells && len(phaseRangeDelta) == numSignalCells
+//@ invariant[C04] (Enough ==> numSignalCells == N)
+//@ invariant[C04] forall(k, 0, len(lockTimeIndicator), lockTimeIndicator[k] == bits(bitStream, S + 44*numSignalCells + 10*k, 10))
 //@ decreases numSignalCells - i
 //@ loop 4
 //@ invariant 0 <= i && i <= numSignalCells && len(halfCycleAmbiguity) == i && fresh(halfCycleAmbiguity) && pos == S + 54*numSignalCells + i
 //@ invariant 0 <= numSignalCells && S + 80*numSignalCells <= 8*len(bitStream) && len(rangeDelta) == numSignalCells && len(phaseRangeDelta) == numSignalCells && len(lockTimeIndicator) == numSignalCells
+//@ invariant[C04] (Enough ==> numSignalCells == N)
+//@ invariant[C04] forall(k, 0, len(halfCycleAmbiguity), halfCycleAmbiguity[k] == (bits(bitStream, S + 54*numSignalCells + k, 1) == 1))
 //@ decreases numSignalCells - i
 //@ loop 5
 //@ invariant 0 <= i && i <= numSignalCells && len(cnr) == i && fresh(cnr) && pos == S + 55*numSignalCells + 10*i
 //@ invariant 0 <= numSignalCells && S + 80*numSignalCells <= 8*len(bitStream) && len(rangeDelta) == numSignalCells && len(phaseRangeDelta) == numSignalCells && len(lockTimeIndicator) == numSignalCells && len(halfCycleAmbiguity) == numSignalCells
+//@ invariant[C04] (Enough ==> numSignalCells == N) && allocated(lockTimeIndicator) && arrof(lockTimeIndicator) != arrof(cnr)
+//@ invariant[C04] forall(k, 0, numSignalCells, lockTimeIndicator[k] == bits(bitStream, S + 44*numSignalCells + 10*k, 10))
+//@ invariant[C04] forall(k, 0, len(cnr), cnr[k] == bits(bitStream, S + 55*numSignalCells + 10*k, 10))
 //@ decreases numSignalCells - i
 //@ loop 6
 //@ invariant 0 <= i && i <= numSignalCells && len(phaseRangeRateDelta) == i && fresh(phaseRangeRateDelta) && pos == S + 65*numSignalCells + 15*i
 //@ invariant 0 <= numSignalCells && S + 80*numSignalCells <= 8*len(bitStream) && len(rangeDelta) == numSignalCells && len(phaseRangeDelta) == numSignalCells && len(lockTimeIndicator) == numSignalCells && len(halfCycleAmbiguity) == numSignalCells && len(cnr) == numSignalCells
+//@ invariant[C04] (Enough ==> numSignalCells == N) && allocated(rangeDelta) && allocated(phaseRangeDelta) && arrof(rangeDelta) != arrof(phaseRangeRateDelta) && arrof(phaseRangeDelta) != arrof(phaseRangeRateDelta)
+//@ invariant[C04] forall(k, 0, numSignalCells, rangeDelta[k] == sbits(bitStream, S + 20*k, 20))
+//@ invariant[C04] forall(k, 0, numSignalCells, phaseRangeDelta[k] == sbits(bitStream, S + 20*numSignalCells + 24*k, 24))
+//@ invariant[C04] forall(k, 0, len(phaseRangeRateDelta), phaseRangeRateDelta[k] == sbits(bitStream, S + 65*numSignalCells + 15*k, 15))
 //@ decreases numSignalCells - i
 //@ loop 7
 //@ invariant 0 - 1 <= rangeindex && rangeindex <= len(header.Cells) - 1 && (len(header.Cells) == 0 || rangeindex < len(header.Cells))
@@ -42,6 +71,9 @@ package signal
 //@ invariant forall(k, rangeindex + 1, len(signalCells), len(signalCells[k]) == 0)
 //@ invariant forall(k, 0, rangeindex + 1, forall(l, 0, len(signalCells[k]), signalCells[k][l].Satellite != nil))
 //@ invariant len(rangeDelta) == numSignalCells && len(phaseRangeDelta) == numSignalCells && len(lockTimeIndicator) == numSignalCells && len(halfCycleAmbiguity) == numSignalCells && len(cnr) == numSignalCells && len(phaseRangeRateDelta) == numSignalCells
+//@ invariant[C04] (rangeindex + 1) * ns <= T && ns >= 0
+//@ invariant[C04] (Enough ==> numSignalCells == N) && (Enough ==> c == cnthi(M, T, (rangeindex + 1) * ns))
+//@ invariant[C04] Enough ==> forall(k, 0, rangeindex + 1, Row7OK(contents(signalCells[k]), offof(signalCells[k]), len(signalCells[k]), contents(header.Signals), offof(header.Signals), M, T, ns, k, ns, contents(bitStream), P, N, addr(satCells, k), logLevel))
 //@ decreases len(header.Cells) - rangeindex
 //@ loop 8
 //@ invariant 0 - 1 <= rangeindex && rangeindex <= len(header.Signals) - 1 && 0 <= i && i < len(header.Cells)
@@ -50,6 +82,21 @@ package signal
 //@ invariant forall(k, i + 1, len(signalCells), len(signalCells[k]) == 0)
 //@ invariant forall(k, 0, i + 1, forall(l, 0, len(signalCells[k]), signalCells[k][l].Satellite != nil))
 //@ invariant len(rangeDelta) == numSignalCells && len(phaseRangeDelta) == numSignalCells && len(lockTimeIndicator) == numSignalCells && len(halfCycleAmbiguity) == numSignalCells && len(cnr) == numSignalCells && len(phaseRangeRateDelta) == numSignalCells
+//@ invariant[C04] i * ns + ns <= T && ns >= 0
+//@ invariant[C04] (Enough ==> numSignalCells == N) && (Enough ==> c == cnthi(M, T, i * ns + rangeindex + 1))
+//@ invariant[C04] Enough ==> forall(k, 0, i, Row7OK(contents(signalCells[k]), offof(signalCells[k]), len(signalCells[k]), contents(header.Signals), offof(header.Signals), M, T, ns, k, ns, contents(bitStream), P, N, addr(satCells, k), logLevel))
+// the row being built (row i, columns 0..rangeindex): Row7OK unfolded, one field per conjunct
+//@ invariant[C04] Enough ==> len(signalCells[i]) == cnthi(M, T, i*ns + rangeindex + 1) - cnthi(M, T, i*ns)
+//@ invariant[C04] Enough ==> forall(p, i*ns, i*ns + rangeindex + 1, bitof(M, T - 1 - p) == 1 ==> 0 <= cnthi(M, T, p) - cnthi(M, T, i*ns) && cnthi(M, T, p) - cnthi(M, T, i*ns) < len(signalCells[i]), cnthi(M, T, p))
+//@ invariant[C04] Enough ==> forall(p, i*ns, i*ns + rangeindex + 1, bitof(M, T - 1 - p) == 1 ==> signalCells[i][cnthi(M, T, p) - cnthi(M, T, i*ns)].ID == header.Signals[p - i*ns] && signalCells[i][cnthi(M, T, p) - cnthi(M, T, i*ns)].Satellite == addr(satCells, i) && signalCells[i][cnthi(M, T, p) - cnthi(M, T, i*ns)].LogLevel == logLevel, cnthi(M, T, p))
+//@ invariant[C04] Enough ==> forall(p, i*ns, i*ns + rangeindex + 1, bitof(M, T - 1 - p) == 1 ==> signalCells[i][cnthi(M, T, p) - cnthi(M, T, i*ns)].RangeDelta == sbits(bitStream, S + 20*cnthi(M, T, p), 20), cnthi(M, T, p))
+//@ invariant[C04] Enough ==> forall(p, i*ns, i*ns + rangeindex + 1, bitof(M, T - 1 - p) == 1 ==> signalCells[i][cnthi(M, T, p) - cnthi(M, T, i*ns)].PhaseRangeDelta == sbits(bitStream, S + 20*N + 24*cnthi(M, T, p), 24), cnthi(M, T, p))
+//@ invariant[C04] Enough ==> forall(p, i*ns, i*ns + rangeindex + 1, bitof(M, T - 1 - p) == 1 ==> signalCells[i][cnthi(M, T, p) - cnthi(M, T, i*ns)].LockTimeIndicator == bits(bitStream, S + 44*N + 10*cnthi(M, T, p), 10), cnthi(M, T, p))
+//@ invariant[C04] Enough ==> forall(p, i*ns, i*ns + rangeindex + 1, bitof(M, T - 1 - p) == 1 ==> signalCells[i][cnthi(M, T, p) - cnthi(M, T, i*ns)].HalfCycleAmbiguity == (bits(bitStream, S + 54*N + cnthi(M, T, p), 1) == 1), cnthi(M, T, p))
+//@ invariant[C04] Enough ==> forall(p, i*ns, i*ns + rangeindex + 1, bitof(M, T - 1 - p) == 1 ==> signalCells[i][cnthi(M, T, p) - cnthi(M, T, i*ns)].CarrierToNoiseRatio == bits(bitStream, S + 55*N + 10*cnthi(M, T, p), 10), cnthi(M, T, p))
+//@ invariant[C04] Enough ==> forall(p, i*ns, i*ns + rangeindex + 1, bitof(M, T - 1 - p) == 1 ==> signalCells[i][cnthi(M, T, p) - cnthi(M, T, i*ns)].PhaseRangeRateDelta == sbits(bitStream, S + 65*N + 15*cnthi(M, T, p), 15), cnthi(M, T, p))
+// ... and folded back into the predicate (proved from the conjuncts above)
+//@ invariant[C04] {reveal Row7OK, Sig7OK} Enough ==> Row7OK(contents(signalCells[i]), offof(signalCells[i]), len(signalCells[i]), contents(header.Signals), offof(header.Signals), M, T, ns, i, rangeindex + 1, contents(bitStream), P, N, addr(satCells, i), logLevel)
 //@ decreases len(header.Signals) - rangeindex
 
 // display: an invalid rough range / rough rate shows as "invalid" (both log levels)
